@@ -2,11 +2,35 @@ package main
 
 import (
 	"fmt"
+	"os"
 	"time"
+
+	"verifharness/hx"
 )
 
+func hxRand(seed uint64) *hx.Rand { return hx.NewRand(seed) }
+
 // debugMain: ad-hoc experiments (not part of the check).
+func debugBlast(handlers string, seed uint64) {
+	cfg := childCfg{Handlers: handlers}
+	convs := genBlast(hxRand(seed), cfg, false)
+	t0 := time.Now()
+	out := blastWorker(cfg, convs, 48)
+	fmt.Printf("blast handlers=%q convs=%d wall=%v fails=%d extras=%v\n", handlers, len(convs), time.Since(t0), len(out.fails), out.extras)
+	for i, f := range out.fails {
+		if i < 12 {
+			fmt.Println(" ", f.class, "::", f.detail)
+		}
+	}
+}
+
 func debugMain() {
+	if len(os.Args) > 3 && os.Args[2] == "blast" {
+		for seed := uint64(1); seed <= 3; seed++ {
+			debugBlast(os.Args[3], seed)
+		}
+		return
+	}
 	cfg := blastTimeouts(childCfg{Handlers: "DASPRUGT", UDP: true})
 	for i, g := range garbageForms {
 		ch, err := startChild(cfg)
